@@ -1,7 +1,7 @@
 """Property -> obligations registry.  Section numbers refer to /verif/DESIGN.md."""
 import functools
 
-from .rules import tables, truth, da, order, bond, sampler, own, exc, keys, sib, prov, tok, emit, extra, ring
+from .rules import tables, truth, da, order, bond, sampler, own, exc, keys, sib, prov, tok, emit, extra, ring, gaps
 
 COMMON_ASSUMPTIONS = [
     "pysmiles, networkx, numpy and RDKit behave as documented (their code is not analysed)",
@@ -136,6 +136,12 @@ R = {
     "own_fresh_fragment": tiered(extra.own_fresh_fragment),
     "prov_after_branch_order": tiered(extra.prov_after_branch_order),
     "prov_hcount_bookkeeping_sampler": tiered(extra.prov_hcount_bookkeeping_sampler),
+    "tok_fragment_multiplier": tiered(gaps.tok_fragment_multiplier),
+    "sib_fragment_dialect": tiered(gaps.sib_fragment_dialect),
+    "trip_branch_close": tiered(gaps.trip_branch_close),
+    "sib_fragment_node_names": tiered(gaps.sib_fragment_node_names),
+    "exc_fragment_strict": tiered(gaps.exc_fragment_strict),
+    "prov_rdkit_sanitize": tiered(gaps.prov_rdkit_sanitize),
     "sent_numeric_attrs": tiered(extra.sent_numeric_attrs),
     "ord_complete_loops": tiered(extra.ord_complete_loops),
     "own_mutable_defaults_layout": named("own_mutable_defaults_layout", own.own_mutable_defaults, "quick", tuple(own.SKIP_MODULES), 2),
@@ -181,9 +187,10 @@ OPEN_DEFECTS = {
 
 
 def prop(pid, rules, decided, undecided, floors=None, assumptions=None):
-    known = ["%s (%s)" % (k, v[0]) for k, v in OPEN_DEFECTS.items() if pid in v[1]]
+    reported = {"D5", "D6", "D7", "D15", "D17", "D18"}      # rules/gaps.py states a necessary condition for these: KNOWN-FINDING lines
+    known = ["%s (%s%s)" % (k, v[0], ", reported as KNOWN-FINDING" if k in reported else ", not reported by any rule") for k, v in OPEN_DEFECTS.items() if pid in v[1]]
     if known:
-        undecided = undecided + "; KNOWN VIOLATIONS of the behaviour outside the decided clauses, found by testing and not reported by any rule (DESIGN 16): " + "; ".join(known)
+        undecided = undecided + "; KNOWN VIOLATIONS of the behaviour, found by testing (DESIGN 16): " + "; ".join(known)
     PROPERTIES[pid] = {"rules": [R[r] for r in rules], "rule_names": rules,
                        "explanation": EXPL + " Decided for %s: %s. Not decided: %s." % (pid, decided, undecided),
                        "decided": decided, "undecided": undecided,
@@ -339,3 +346,18 @@ for _pid, _txt in _LATER.items():
     _sp = PROPERTIES[_pid]
     _sp["decided"] = _sp["decided"] + "; " + _txt
     _sp["explanation"] = EXPL + " Decided for %s: %s. Not decided: %s." % (_pid, _sp["decided"], _sp["undecided"])
+
+# Rules for necessary conditions that today's tree does not meet (rules/gaps.py, DESIGN section 16): each is reported and the
+# finding is listed as `known` in known_findings.json for every property it concerns.
+_GAP_RULES = {
+    "tok_fragment_multiplier": ["C13", "C06", "C02", "C03", "C05", "C14", "C16"],
+    "sib_fragment_dialect": ["C14", "C13", "C02", "C20"],
+    "trip_branch_close": ["C04", "C01", "C11", "C14", "C20", "C05", "C02"],
+    "sib_fragment_node_names": ["C08"],
+    "exc_fragment_strict": ["C20"],
+    "prov_rdkit_sanitize": ["C18"],
+}
+for _rn, _pids in _GAP_RULES.items():
+    for _pid in _pids:
+        PROPERTIES[_pid]["rules"].append(R[_rn])
+        PROPERTIES[_pid]["rule_names"].append(_rn)
